@@ -18,7 +18,12 @@ def solve(ob, use_cvc5=True):
     s.set("random_seed", 0)
     s.add(*ob.conds)
     if ob.expect == "unsat":
-        s.add(z3.Not(ob.goal))
+        goal = ob.goal
+        # a universally quantified goal is proved for fresh constants (skolemisation done here, not left to the solver)
+        while z3.is_quantifier(goal) and goal.is_forall():
+            vs = [z3.FreshConst(goal.var_sort(i), "sk") for i in range(goal.num_vars())]
+            goal = z3.substitute_vars(goal.body(), *reversed(vs))
+        s.add(z3.Not(goal))
     t0 = time.time()
     r = s.check()
     ob.seconds = time.time() - t0
